@@ -3,8 +3,31 @@ import scopedom
 import usimrun
 
 OBS = 'ObsC03'
-LABELS = {'quick': 'abort nested cancel until cancel_close until_time'.split(), 'thorough': 'abort nested cancel until cancel_close until_time'.split()}
+LABELS = {'quick': 'abort nested cancel until until_late cancel_close until_time'.split(),
+          'thorough': 'abort nested cancel until until_late cancel_close until_time'.split()}
 LIVE = {'quick': ['abort'], 'thorough': ['abort', 'cancel', 'until', 'graceful']}
+
+
+def kept_ticker_programs():
+    """`clock = interval(p)` kept by a long-lived object and iterated by a task that is closed forcefully while it
+    pauses (until trigger / volatile child at the end of its scope / failing sibling); the simulation goes on past
+    the date of the pause"""
+    def tick(kind, p):
+        return [{'op': 'tick', 'i': 1, 'kind': kind, 'p': p, 'keep': True}, {'op': 'instant'}]
+    progs = []
+    for kind in ('delay', 'interval'):
+        progs.append([[{'op': 'open', 'kind': 'until_d', 'd': 1, 'catch': True},
+                       {'op': 'do', 's': -1, 'vol': False, 'fin': 'none', 'prog': tick(kind, 2)}, {'op': 'leave'},
+                       {'op': 'sleep', 'd': 3}]])
+        progs.append([[{'op': 'open', 'kind': 'scope', 'catch': True},
+                       {'op': 'do', 's': -1, 'vol': True, 'fin': 'none', 'prog': tick(kind, 2)}, {'op': 'sleep', 'd': 1},
+                       {'op': 'leave'}, {'op': 'sleep', 'd': 3}]])
+        progs.append([[{'op': 'open', 'kind': 'scope', 'catch': True},
+                       {'op': 'do', 's': -1, 'vol': False, 'fin': 'none', 'prog': tick(kind, 3)},
+                       {'op': 'do', 's': -1, 'vol': False, 'fin': 'none',
+                        'prog': [{'op': 'sleep', 'd': 1}, {'op': 'raise', 'cls': 'Key'}]},
+                       {'op': 'leave'}, {'op': 'sleep', 'd': 4}]])
+    return progs
 
 
 def run(check):
@@ -30,6 +53,10 @@ def run(check):
     more = [(p, storm.rankify(log), len(p['roots'])) for p, (log, outcome) in zip(progs, results)]
     check.programs += n
     check.extra['timing_storm_programs'] = n
+    # ticker objects that outlive the activity iterating them, while that activity is closed forcefully in a pause
+    kept = kept_ticker_programs()
+    more += [(p, log, 1) for p, (log, outcome) in zip(kept, usimrun.run_many(kept, 1))]
+    check.programs += len(kept)
     runs = scopedom.run(check, OBS, LABELS[check.tier], conform=True, more=more)
     # the binding itself is tested: corrupted copies of recorded traces must be rejected by the operational spec
     import selftest
